@@ -442,7 +442,7 @@ func (h *RunHarness) fanInfo() []Ev {
 			"cfgMap": sp.CfgMap != nil, "cfgMinMax": sp.CfgMin != nil && sp.CfgMax != nil, "neverStop": sp.NeverStop,
 			"pwm": h.Env.Get(st.px + "pwm"), "mode": h.modeOf(st), "theta": st.rf.Theta,
 			"rest": st.rf.Rest[:], "hadData": h.hasData(st), "hadMap": h.hasMap(st), "n": h.Cfg.Window,
-			"min": st.fan.GetMinPwm(), "max": st.fan.GetMaxPwm(), "stallOnly": st.rf.CurveErrAt < 0, "rpmPollMs": h.Cfg.RpmPollMs, "algT": sp.Alg.T, "quant": st.rf.Quant, "qmode": qmodeOf(st.rf),
+			"min": st.fan.GetMinPwm(), "max": st.fan.GetMaxPwm(), "stallOnly": st.rf.CurveErrAt < 0, "rpmPollMs": h.Cfg.RpmPollMs, "algT": sp.Alg.T, "quant": st.rf.Quant, "qmode": qmodeOf(st.rf), "hasPwm": !(sp.Kind == "cmd" && sp.NoGetPwm),
 			"cfgStart": sp.CfgStart != nil})
 	}
 	return out
